@@ -1054,6 +1054,49 @@ def ev_batch_norm(c):
   return {'linen': call(linen), 'nnx': call(nx), 'oracle': call(oracle), 'lean': [['batch_norm_seq', req]]}
 
 
+def ev_bn_flags(c):
+  """`use_running_average` resolution of BatchNorm: constructor flag x call flag x .eval()/.train() (NNX), constructor x call
+  (Linen merge_param).  Data are chosen so that every statistic is a dyadic rational: state updates are compared exactly."""
+  J = jx()
+  nn, nnx, np, jnp = J['nn'], J['nnx'], J['np'], J['jnp']
+  x = np_of(c['x'])
+  nf = x.shape[-1]
+  mom = c['momentum'][0] / c['momentum'][1]
+  ra_m = np.array(c['ra_mean'], dtype=np.float32)
+  ra_v = np.array(c['ra_var'], dtype=np.float32)
+  kw = dict(momentum=mom, epsilon=c['eps'], use_bias=False, use_scale=False, use_fast_variance=c['fast'])
+  callkw = {} if c.get('omit_call') else {'use_running_average': c['call']}
+
+  def nx():
+    m = nnx.BatchNorm(nf, use_running_average=c['ctor'], rngs=nnx.Rngs(0), **kw)
+    _set(m.mean, ra_m)
+    _set(m.var, ra_v)
+    if c.get('mode') == 'eval':
+      m.eval()
+    elif c.get('mode') == 'train':
+      m.train()
+    y = m(_jarr(x), **callkw)
+    return {'y': _fl(np.asarray(y)), 'mean': _fl(np.asarray(m.mean.value)), 'var': _fl(np.asarray(m.var.value))}
+
+  def linen():
+    m = nn.BatchNorm(use_running_average=c['ctor'], **kw)
+    variables = {'params': {}, 'batch_stats': {'mean': _jarr(ra_m), 'var': _jarr(ra_v)}}
+    y, upd = m.apply(variables, _jarr(x), mutable=['batch_stats'], **callkw)
+    bs = upd['batch_stats']
+    return {'y': _fl(np.asarray(y)), 'mean': _fl(np.asarray(bs['mean'])), 'var': _fl(np.asarray(bs['var']))}
+
+  attr = c['ctor']
+  if c.get('mode') == 'eval':
+    attr = True
+  elif c.get('mode') == 'train':
+    attr = False
+  res = {'nnx': call(nx), 'lean': [['resolve_flag', {'api': 'nnx', 'call': c['call'], 'attr': attr}]]}
+  if c.get('mode') is None:
+    res['linen'] = call(linen)
+    res['lean'].append(['resolve_flag', {'api': 'linen', 'call': c['call'], 'attr': c['ctor']}])
+  return res
+
+
 def ev_dropout(c):
   J = jx()
   nn, nnx, np, jax = J['nn'], J['nnx'], J['np'], J['jax']
@@ -1089,6 +1132,15 @@ def ev_dropout(c):
     res[name] = {'ones': f(ones, key), 'x': f(x, key, ctor=True), 'x2': f(x2, key), 'det': f(x, key, det=True),
                  'det_ctor': f(x, key, det=True, ctor=True), 'ones_key2': f(ones, key2), 'ones_again': f(ones, key)}
   res['cross'] = _outf(cross)
+  # nnx first_from: an explicit call-time `deterministic=False` on a layer constructed / switched to deterministic=True must drop
+  res['nnx']['call_false_over_ctor_true'] = _outf(lambda: nnx.Dropout(rate, broadcast_dims=bd, deterministic=True, rngs=nnx.Rngs(dropout=key))(_jarr(x), deterministic=False))
+
+  def after_eval():
+    m = nnx.Dropout(rate, broadcast_dims=bd, rngs=nnx.Rngs(dropout=key))
+    m.eval()
+    return m(_jarr(x), deterministic=False)
+
+  res['nnx']['call_false_after_eval'] = _outf(after_eval)
   res['lean'] = [['dropout_branch', {'rate_num': c['rate'][0], 'rate_den': c['rate'][1], 'deterministic': False, 'shape': list(shape), 'broadcast_dims': list(bd)}],
                  ['dropout_branch', {'rate_num': c['rate'][0], 'rate_den': c['rate'][1], 'deterministic': True, 'shape': list(shape), 'broadcast_dims': list(bd)}]]
   return res
@@ -1096,7 +1148,7 @@ def ev_dropout(c):
 
 EVALUATORS = {
   'dense': ev_dense, 'dense_general': ev_dense_general, 'einsum': ev_einsum, 'conv': ev_conv, 'conv_transpose': ev_conv_transpose,
-  'embed': ev_embed, 'pool': ev_pool, 'norm': ev_norm, 'batch_norm': ev_batch_norm, 'dropout': ev_dropout,
+  'embed': ev_embed, 'pool': ev_pool, 'norm': ev_norm, 'batch_norm': ev_batch_norm, 'bn_flags': ev_bn_flags, 'dropout': ev_dropout,
 }
 
 
@@ -1776,6 +1828,63 @@ def judge_batch_norm(ctx, case, ev, lean):
     ctx.violation('batch_norm-model-mismatch', f'Lean BatchNorm model does not reproduce the implementation: config={_cfg(case)}', _strip(case), concrete=False)
 
 
+def judge_bn_flags(ctx, case, ev, lean):
+  call_f, ctor, mode = case['call'], case['ctor'], case.get('mode')
+  xs = case['x']
+  n, nf = xs['s']
+  X = [[Fraction(xs['d'][i * nf + j]) for j in range(nf)] for i in range(n)]
+  mom = Fraction(*case['momentum'])
+  rm = [Fraction(v) for v in case['ra_mean']]
+  rv = [Fraction(v) for v in case['ra_var']]
+  bmean = [sum(X[i][j] for i in range(n)) / n for j in range(nf)]
+  bvar = [sum((X[i][j] - bmean[j]) ** 2 for i in range(n)) / n for j in range(nf)]
+
+  def expect(flag):
+    mean, var = (rm, rv) if flag else (bmean, bvar)
+    nm, nv = (rm, rv) if flag else ([mom * a + (1 - mom) * b for a, b in zip(rm, bmean)], [mom * a + (1 - mom) * b for a, b in zip(rv, bvar)])
+    y = [float(X[i][j] - mean[j]) / math.sqrt(float(var[j]) + case['eps']) for i in range(n) for j in range(nf)]
+    return y, nm, nv
+
+  def behaves_as(r, flag):
+    y, nm, nv = expect(flag)
+    return (all(g is not None and abs(g - w) <= 1e-4 * (1 + abs(w)) for g, w in zip(r['y']['v'], y))
+            and [Fraction(g) for g in r['mean']['v']] == nm and [Fraction(g) for g in r['var']['v']] == nv)
+
+  def resolved(api):
+    attr = ctor if mode is None else (mode == 'eval')
+    if api == 'nnx':
+      return call_f if call_f is not None else attr  # None = error
+    if (ctor is None) == (call_f is None):
+      return None
+    return call_f if call_f is not None else ctor
+
+  for k, api in enumerate(a for a in ('nnx', 'linen') if a in ev):
+    r = ev[api]
+    want = resolved(api)
+    m = lean[k]
+    desc = f'{api} BatchNorm(use_running_average={ctor}){"." + mode + "()" if mode else ""} called with use_running_average={"<omitted>" if case.get("omit_call") else call_f}'
+    if want is None:
+      if r[0] != 'err':
+        ctx.violation(f'bn-flag-{api}-accepts-no-flag', f'{desc} must refuse (no / ambiguous flag) but returned a value', _strip(case))
+        continue
+      exhibited = None
+    else:
+      if r[0] != 'ok':
+        ctx.violation(f'bn-flag-{api}-raises', f'{desc} raised {r[1]}; it must run with use_running_average={want}', _strip(case))
+        continue
+      if not behaves_as(r[1], want):
+        other = behaves_as(r[1], not want)
+        ctx.violation(f'bn-flag-{api}-wrong-mode', f'{desc} must behave as use_running_average={want} ('
+                      + ('normalise with the running statistics and leave them unchanged' if want else 'normalise with the batch statistics and update running = m*old+(1-m)*batch')
+                      + f') but {"behaves as " + str(not want) if other else "matches neither formula"}: mean={r[1]["mean"]["v"]} var={r[1]["var"]["v"]}', _strip(case))
+        continue
+      exhibited = want
+    mexp = ('err', None) if exhibited is None else ('ok', exhibited)
+    if (m[0] == 'err') != (mexp[0] == 'err') or (m[0] == 'ok' and m[1] != mexp[1]):
+      ctx.disagreements_checked += 1
+      ctx.violation(f'bn-flag-{api}-model-mismatch', f'Lean flag resolution {m} vs implementation behaviour {mexp} for {desc}', _strip(case), concrete=False)
+
+
 def judge_dropout(ctx, case, ev, lean):
   num, den = case['rate']
   keep = Fraction(den - num, den)
@@ -1822,6 +1931,10 @@ def judge_dropout(ctx, case, ev, lean):
         if abs(got[i] - want) > 2 * U32 * abs(want):
           ctx.violation(f'{key}-select-scale', f'{api} Dropout(rate={num}/{den}): element {i} of input {data[i]} became {got[i]}, mask (seen on all-ones input, same key) says {want}: mask depends on data or scaling is not 1/(1-rate)', _strip(case))
           return
+    for nm in ('call_false_over_ctor_true', 'call_false_after_eval'):
+      if nm in e and v(e[nm]) != v(e['x']):
+        ctx.violation(f'{key}-call-flag-ignored', f'{api} Dropout constructed / switched to deterministic=True and called with deterministic=False must apply dropout (the call-time flag wins): {nm} differs from the non-deterministic output', _strip(case))
+        return
     if v(e['ones_again']) != ones:
       ctx.violation(f'{key}-not-key-determined', f'{api} Dropout gives different masks for the same key', _strip(case))
       return
@@ -1848,7 +1961,7 @@ def judge_dropout(ctx, case, ev, lean):
 
 
 JUDGES = {'dense': judge_exact, 'dense_general': judge_exact, 'einsum': judge_exact, 'conv': judge_exact, 'conv_transpose': judge_exact,
-          'embed': judge_exact, 'pool': judge_pool, 'norm': judge_norm, 'batch_norm': judge_batch_norm, 'dropout': judge_dropout}
+          'embed': judge_exact, 'pool': judge_pool, 'norm': judge_norm, 'batch_norm': judge_batch_norm, 'bn_flags': judge_bn_flags, 'dropout': judge_dropout}
 
 
 # ------------------------------------------------------------------------------------------------
@@ -2017,6 +2130,21 @@ def systematic(rng):
     for op in ('avg', 'max', 'min'):
       cases.append({'kind': 'pool', 'op': op, 'x': rand_T(rng, bshape + [4, 1], -XR, XR), 'window': [2], 'strides': [1 + nbd % 2],
                     'padding': [[1, 1]], 'count_include_pad': False, '_nt': True, '_sys': True})
+  # use_running_average resolution: (ctor flag) x (call flag) x (.eval() / .train() / neither); dyadic statistics => exact updates
+  for ctor in (None, True, False):
+    for call_f in (None, True, False):
+      for mode in (None, 'eval', 'train'):
+        nf = 2
+        while True:
+          half = [[rng.randint(-3, 3) for _ in range(nf)] for _ in range(2)]
+          rows = half + [[v + 2 * rng.choice([-1, 1]) for v in r] for r in half]  # 4 rows: means are dyadic
+          ra_mean = [rng.randint(-4, 4) for _ in range(nf)]
+          bm = [sum(r[j] for r in rows) / 4 for j in range(nf)]
+          if all(abs(bm[j] - ra_mean[j]) >= 1 for j in range(nf)):
+            break
+        cases.append({'kind': 'bn_flags', 'ctor': ctor, 'call': call_f, 'mode': mode, 'omit_call': call_f is None and rng.random() < 0.5,
+                      'x': T([4, nf], [v for r in rows for v in r]), 'ra_mean': ra_mean, 'ra_var': [rng.randint(1, 4) for _ in range(nf)],
+                      'momentum': rng.choice([[1, 2], [3, 4], [7, 8]]), 'eps': 0.125, 'fast': rng.random() < 0.5, '_nt': True, '_sys': True})
   # DenseGeneral / LinearGeneral with per-batch kernel AND bias: 1-2 batch axes, a free axis of size == B, != B and 1,
   # single / multi-axis contraction (unsorted, negative), single / multi-dim features, bias rows distinct per batch entry
   for bshape in ([2], [3], [2, 3]):
